@@ -158,12 +158,12 @@ def _pre_cyl(A, i):
 
 
 def _pre_sphere(A, i):
-    return [z(A["diameter"], i) > 0]
+    return [z(A["diameter"], i) >= 0]  # the setter accepts 0 (forbid_negative only)
 
 
 def _pre_seg(A, i):
     r1, r2, h, p1, p2 = [z(A["dimension"], i, k) for k in range(5)]
-    return [r1 >= 0, r1 < r2, h > 0, p1 < p2, p2 - p1 <= 360]
+    return [r1 >= 0, r1 <= r2, r2 > 0, h > 0, p1 <= p2, p2 - p1 <= 360]  # what check_format_input_cylinder_segment accepts (equalities included)
 
 
 def _pre_none(A, i):
